@@ -56,6 +56,15 @@ void sb_mpq (SBuf * b, const mpq_t q)
 	b->len += strlen (b->s + b->len);
 }
 
+char *q_str (const mpq_t q)
+{
+	size_t k = mpz_sizeinbase (mpq_numref (q), 10) + mpz_sizeinbase (mpq_denref (q), 10) + 4;
+	char *s = malloc (k); mpq_get_str (s, 10, q); return s;
+}
+char *z_str (const mpz_t z)
+{
+	char *s = malloc (mpz_sizeinbase (z, 10) + 3); mpz_get_str (s, 10, z); return s;
+}
 /* ------------------------------------------------------------------ RefLP */
 RefLP *ref_new (int objsense)
 {
